@@ -84,7 +84,7 @@ func runSelftest(args []string) int {
 		info string
 	}
 	out := make([]res, len(ms))
-	sem := make(chan struct{}, 3)
+	sem := make(chan struct{}, 2)
 	var wg sync.WaitGroup
 	for i, m := range ms {
 		wg.Add(1)
